@@ -49,12 +49,12 @@ theorem encodeSeq_quiet (m : Msg) : Sat Quiet (encodeSeq m) := by
 
 theorem sendGate_quiet (m : Msg) : Sat Quiet (sendGate m) := by
   unfold sendGate
-  repeat' (first | exact stateSet_quiet _ | sat_step)
+  repeat' (first | with_reducible exact stateSet_quiet _ | sat_step)
   quiet_side
 
 theorem sendCore_quiet (env : Env) (m : Msg) : Sat Quiet (sendCore env m) := by
   unfold sendCore
-  repeat' (first | exact encodeSeq_quiet _ | sat_step | split)
+  repeat' (first | with_reducible exact encodeSeq_quiet _ | sat_step | split)
   quiet_side
 
 theorem sendMsg_quiet (env : Env) (m : Msg) : Sat Quiet (sendMsg env m) := by
@@ -63,12 +63,12 @@ theorem sendMsg_quiet (env : Env) (m : Msg) : Sat Quiet (sendMsg env m) := by
 
 theorem sendTestReq_quiet (env : Env) : Sat Quiet (sendTestReq env) := by
   unfold sendTestReq
-  repeat' (first | exact sendMsg_quiet _ _ | sat_step)
+  repeat' (first | with_reducible exact sendMsg_quiet _ _ | sat_step)
   quiet_side
 
 theorem disconnect_quiet (env : Env) (d : Nat) (l : Option String) : Sat Quiet (disconnect env d l) := by
   unfold disconnect
-  repeat' (first | exact sendMsg_quiet _ _ | exact stateSet_quiet _ | sat_step | split)
+  repeat' (first | with_reducible exact sendMsg_quiet _ _ | with_reducible exact stateSet_quiet _ | sat_step | split)
   quiet_side
 
 theorem validateIntegrity_quiet (m : Msg) : Sat Quiet (validateIntegrity m) := by
@@ -81,26 +81,26 @@ theorem setSeqNum_out_quiet (o : Option Int) : Sat Quiet (setSeqNum o none) := b
 
 theorem processLogon_quiet (env : Env) (m : Msg) : Sat Quiet (processLogon env m) := by
   unfold processLogon
-  repeat' (first | exact sendMsg_quiet _ _ | exact stateSet_quiet _ | exact disconnect_quiet _ _ _ | sat_step)
+  repeat' (first | with_reducible exact sendMsg_quiet _ _ | with_reducible exact stateSet_quiet _ | with_reducible exact disconnect_quiet _ _ _ | sat_step)
   quiet_side
 
 theorem checkSeqnumGaps_quiet (env : Env) (n : Int) : Sat Quiet (checkSeqnumGaps env n) := by
   unfold checkSeqnumGaps
-  repeat' (first | exact sendMsg_quiet _ _ | exact stateSet_quiet _ | sat_step)
+  repeat' (first | with_reducible exact sendMsg_quiet _ _ | with_reducible exact stateSet_quiet _ | sat_step)
   quiet_side
 
 theorem processLogout_quiet (env : Env) (m : Msg) : Sat Quiet (processLogout env m) := by
   unfold processLogout
-  repeat' (first | exact disconnect_quiet _ _ _ | sat_step)
+  repeat' (first | with_reducible exact disconnect_quiet _ _ _ | sat_step)
   quiet_side
 
 theorem processTestRequest_quiet (env : Env) (m : Msg) : Sat Quiet (processTestRequest env m) := by
   unfold processTestRequest
-  repeat' (first | exact sendMsg_quiet _ _ | sat_step)
+  repeat' (first | with_reducible exact sendMsg_quiet _ _ | sat_step)
 
 theorem processHeartbeat_quiet (env : Env) (m : Msg) : Sat Quiet (processHeartbeat env m) := by
   unfold processHeartbeat
-  repeat' (first | exact disconnect_quiet _ _ _ | sat_step | split)
+  repeat' (first | with_reducible exact disconnect_quiet _ _ _ | sat_step | split)
   quiet_side
 
 theorem resendLoop_quiet (env : Env) (sr : Msg → Bool) (rows : List Msg) (gfb gfe : Int) :
@@ -109,15 +109,15 @@ theorem resendLoop_quiet (env : Env) (sr : Msg → Bool) (rows : List Msg) (gfb 
   | nil => unfold resendLoop; exact Sat.pure _
   | cons row rest ih =>
     unfold resendLoop
-    repeat' (first | exact ih _ _ | exact sendMsg_quiet _ _ | sat_step)
+    repeat' (first | with_reducible exact ih _ _ | with_reducible exact sendMsg_quiet _ _ | sat_step)
 
 theorem processResend_quiet (env : Env) (sr : Msg → Bool) (m : Msg) : Sat Quiet (processResend env sr m) := by
   unfold processResend
-  repeat' (first | exact resendLoop_quiet _ _ _ _ _ | exact sendMsg_quiet _ _ | exact stateSet_quiet _ | exact setSeqNum_out_quiet _ | sat_step | dsimp only | split)
+  repeat' (first | with_reducible exact resendLoop_quiet _ _ _ _ _ | with_reducible exact sendMsg_quiet _ _ | with_reducible exact stateSet_quiet _ | with_reducible exact setSeqNum_out_quiet _ | sat_step | dsimp only | split)
 
 theorem tickBody_quiet (env : Env) : Sat Quiet (tickBody env) := by
   unfold tickBody
-  repeat' (first | exact sendTestReq_quiet _ | exact disconnect_quiet _ _ _ | sat_step)
+  repeat' (first | with_reducible exact sendTestReq_quiet _ | with_reducible exact disconnect_quiet _ _ _ | sat_step)
   quiet_side
 
 theorem connectedM_quiet (k : ConnKind) : Sat Quiet (connectedM k) := by
